@@ -706,6 +706,14 @@ func (ev *evaluator) call(e *Expr) (*Term, error) {
 			return dom, nil
 		}
 		return tag, nil
+	case "objper": // objper(K): per-element allocation allowance of a list of message parts of type K
+		if e.Args[0].Kind == "ident" {
+			if t, ok := ev.tnames[e.Args[0].Name]; ok {
+				a, b := ev.x.V.allocConstsOfTag(ev.x.tagOfType(t))
+				return IntC(a + b + 384), nil
+			}
+		}
+		return nil, ev.err("objper needs a type parameter")
 	case "minwidth":
 		a, err := ev.args(e)
 		if err != nil {
